@@ -318,6 +318,21 @@ Definition join (a b : tymap) : tymap :=
                           | None => acc
                           end) (keys b) a.
 
+(* canonical representative of a type map (first entry per name, no repeated tags): keeps the maps of the
+   executable worklist small; lookup-equivalent to its argument *)
+Fixpoint dedup_ty (s : tyset) : tyset :=
+  match s with
+  | [] => []
+  | t :: r => if mem_ty t r then dedup_ty r else t :: dedup_ty r
+  end.
+Fixpoint dedup_names (seen l : list name) : list name :=
+  match l with
+  | [] => []
+  | x :: r => if existsb (Nat.eqb x) seen then dedup_names seen r else x :: dedup_names (x :: seen) r
+  end.
+Definition norm (m : tymap) : tymap :=
+  flat_map (fun x => match lookup m x with Some s => [(x, dedup_ty s)] | None => [] end) (dedup_names [] (keys m)).
+
 Section Worklist.
   Variable tr : node -> tymap -> tymap.     (* transfer, resolver fixed *)
   Variable g : graph.
@@ -328,8 +343,8 @@ Section Worklist.
     match assoc (g_nodes g) n with
     | None => (s, false)
     | Some nd =>
-        let tin := fold_left (fun acc p => join acc (sol_out s p)) (prevs g n) [] in
-        let tout := tr nd tin in
+        let tin := norm (fold_left (fun acc p => join acc (sol_out s p)) (prevs g n) []) in
+        let tout := norm (tr nd tin) in
         (set_sol s n tin tout, negb (tymap_eqb (sol_out s n) tout))
     end.
 
